@@ -228,8 +228,9 @@ class MTSPEnv(RL4COEnvBase):
 
         # With distance, same as TSP
         elif self.cost_type == "sum":
-            locs = td["locs"]
-            locs_ordered = locs.gather(1, actions.unsqueeze(-1).expand_as(locs))
+            # closed walk depot -> actions -> depot (any number of actions; trailing depot visits cost nothing)
+            depot = torch.zeros_like(actions[:, :1])
+            locs_ordered = gather_by_index(td["locs"], torch.cat([depot, actions], dim=1))
             return -get_tour_length(locs_ordered)
 
         else:
